@@ -286,7 +286,7 @@ static Boolean DecodeAdrIndirect(tStrComp* pArg, Word Mask) {
         } else if (DispAcc == 0) {
             AdrMode = ModMem;
             MemPart = 2;
-        } else if ((DispAcc >= -128) && (DispAcc < 127)) {
+        } else if ((DispAcc >= -128) && (DispAcc <= 127)) {
             AdrMode    = ModMem;
             MemPart    = 4;
             AdrVals[0] = DispAcc & 0xff;
